@@ -19,6 +19,7 @@ ASSUMPTIONS = [
     "n_nodes >= 1 (documented ValueError otherwise is not generated)",
     "on a connected graph any OPTIMAL/FEASIBLE status is accepted (the statement fixes the status only for the disconnected cases)",
 ]
+QUICK_SCALE = 2.5  # quick-tier multiplier (idle 16-core timing: ~10 s at scale 1)
 STRATA = [
     ("ties", 1800, 28000),
     ("spread", 1400, 21000),
